@@ -100,6 +100,7 @@ def op_table(D: int) -> Dict[str, Tuple[Callable, Callable]]:
         "repeat_2": (lambda x, e: x.repeat(2, *([1] * (x.ndim - 1))), ident),
         # ---- concat
         "from_images_20": (lambda x, e: type(x).from_images([x[2], x[0]]) if hasattr(x, "from_images") else x[[2, 0]], ident),
+        "from_images_1": (lambda x, e: type(x).from_images([x[1]]) if hasattr(x, "from_images") else x[[1]], ident),
         "append_self": (lambda x, e: x.append(x) if hasattr(x, "append") else torch.cat([x, x]), ident),
         "append_other": (lambda x, e: x.append(e["other"](x)) if hasattr(x, "append") else torch.cat([x, e["other"](x)]), ident),
         "ellipsis_mid": (lambda x, e: x[1:, ..., :], ident),
